@@ -140,7 +140,8 @@ Record aofrec := mkAof {
 Inductive event :=
 | EReply (conn req result lcount lrcount lockid count rcount : N) (data : option bytes)
 | EAof (r : aofrec)
-| EGrant (key : N) (r : ref) (newholder : bool) (locked_before : N)   (* ghost: a hold was granted *)
+| EGrant (key : N) (r : ref) (newholder : bool) (locked_before cur_count req_count : N)
+    (* ghost: a hold was granted; counters as doLock saw them: lockManager.locked, Count of the oldest holder, request Count *)
 | ERelease (key : N) (r : ref) (depth : N)                            (* ghost: depth levels of a hold ended *)
 | EPanic (site : string).
 
